@@ -17,17 +17,17 @@ func (st *State) builtin(th *Thread, fr *Frame, bi *ssa.Builtin, args []Value, a
 			res = x.Len
 		case StrV:
 			res = x.Len
-		case *MapObj:
-			if x == nil {
+		case MapRef:
+			if x == 0 {
 				res = st.zero64
 			} else {
-				res = c.Const(64, uint64(len(x.Keys)))
+				res = c.Const(64, uint64(len(st.mapR(x).Keys)))
 			}
-		case *ChanObj:
-			if x == nil {
+		case ChanRef:
+			if x == 0 {
 				res = st.zero64
 			} else {
-				res = c.Const(64, uint64(len(x.buf)))
+				res = c.Const(64, uint64(len(st.chanR(x).buf)))
 			}
 		case Agg:
 			res = c.Const(64, uint64(len(x)))
@@ -41,8 +41,8 @@ func (st *State) builtin(th *Thread, fr *Frame, bi *ssa.Builtin, args []Value, a
 		switch x := args[0].(type) {
 		case SliceV:
 			res = x.Cap
-		case *ChanObj:
-			res = c.Const(64, uint64(x.cap))
+		case ChanRef:
+			res = c.Const(64, uint64(st.chanR(x).cap))
 		case Agg:
 			res = c.Const(64, uint64(len(x)))
 		default:
@@ -68,9 +68,9 @@ func (st *State) builtin(th *Thread, fr *Frame, bi *ssa.Builtin, args []Value, a
 		st.memmove(dst.Ptr, sp, n*es)
 		res = c.Const(64, uint64(n))
 	case "delete":
-		st.mapDelete(args[0].(*MapObj), args[1])
+		st.mapDelete(args[0].(MapRef), args[1])
 	case "close":
-		st.closeChan(args[0].(*ChanObj))
+		st.closeChan(args[0].(ChanRef))
 	case "print", "println":
 	case "recover":
 		res = IfaceV{}
